@@ -19,6 +19,14 @@ CHECKS = {
    technique="property-based testing / structured mutation fuzzing: generated mutation programs (region-addressed byte flips, truncation, record splices, inflated counts and lengths, stale or rebuilt footers) over valid xorbs plus random inputs, oracle = independent reference decoder (acceptance implies consistency; canonical objects must be accepted), panics caught, allocation cap enforced by a counting allocator in journaled child processes; libFuzzer target in thorough tier",
    text="Each generated (object, claimed hash) pair is run through both validators and the footer parser; acceptance is checked against a reference decoder's view of decodability, recomputed hash and footer consistency, canonical valid objects must be accepted for their own hash only, and panics / oversized allocation requests are violations. Exploration: mutation space is sampled with region-aware generators rather than enumerated.",
    note="Trusts harness/src/refs/xorb.rs and lz4_flex. The streaming validator is allowed to ignore version-0 footers and accept footer-less objects (documented behaviour); zero-chunk objects are outside the valid-object clause."),
+ "C05": dict(level="exploration", design="3/C05",
+   technique="property-based testing: seeded proptest generators over xorb universes with engineered 64-bit prefix collisions, query runs (present / absent / partial / past-the-end / adversarial header hash) and ShardFileManager operation histories incl. HMAC-keyed exports; oracle = map model of the universe (soundness of positive answers)",
+   text="Every positive dedup answer from the in-memory index, a serialized shard and shard-manager histories (flush, planted plain and keyed shards under up to 3 keys and all include flags, re-open, consolidation) is checked against the universe of xorbs: named xorb exists, range fits, hashes equal the query prefix, byte count is the sum. Exploration over generated contents/histories; hit rate on expected-present runs is reported to expose vacuity.",
+   note="Soundness only (completeness is C11's subject). Queries non-empty. Trusts the map model in harness/src/props/c05.rs."),
+ "C09": dict(level="exploration", design="3/C09",
+   technique="property-based testing: seeded proptest generators over shard contents with engineered truncated keys (extremes, clusters, up to 7 per prefix) and raw sorted tables with duplicate runs; oracle = the map model the shard was built from and a linear-scan model of the on-disk search; reader differential (seekable / streaming sync+async / minimal)",
+   text="Generated shards (0..3000 files, 0..600 xorbs) are serialized and every key, same-prefix / neighbouring / random absent key, every scan and every reader is compared with the model maps; the interpolation search is separately compared with a linear scan on tables up to 6000 entries. Exploration because contents are unbounded; generators are built to cross the 256-entry read window and to collide prefixes.",
+   note="Contents are sets of distinct keys; at most 7 records per truncated prefix (documented lookup limit). Trusts the model in harness/src/gen/shard.rs."),
 }
 
 ALL = ["C%02d" % i for i in range(1, 21)]
@@ -62,5 +70,6 @@ def main():
     print("wrote MANIFEST.json with", len(checks), "checks")
 
 HOOK_COMMITS = []
+FIX_COMMITS = ["05f0b8b"]
 if __name__ == "__main__":
     main()
